@@ -332,7 +332,11 @@ func (e *Engine) onNack(name enc.Name, reason uint64) {
 			e.log.Fatalf("PIT has empty entry. This should not happen. Please check the implementation.")
 		}
 	}
-	n.Delete()
+	// The entries are resolved: drop them, then remove the node only if nothing else needs it.
+	n.SetValue(nil)
+	n.DeleteIf(func(lst []*pendInt) bool {
+		return len(lst) == 0
+	})
 }
 
 func (e *Engine) onError(err error) error {
